@@ -96,7 +96,8 @@ def same(eng, st, x, y, what, guard, node, depth=0):
         if isinstance(x, cls) and isinstance(y, cls):
             eng.oblige(st, "%s: value" % what, z3.Implies(guard, f(x) == f(y)), "spmd", node)
             return
-    raise Unsupported("spmd value comparison of %r with %r" % (x, y))
+    # values of different kinds: equal only if the guard is false (e.g. what a non-root rank passes to bcast is never looked at)
+    eng.oblige(st, "%s: same kind of value" % what, z3.Not(guard), "spmd", node)
 
 
 def make_changes_contract():
@@ -430,4 +431,190 @@ def initial_sympify_merge_contract():
                  hooks={"start_idx": cumsum_lemma, "r": slice_lemma})
     c.loop_select = loop_select
     c.region_name = "all-to-all exchange of the printed strings"
+    return c
+
+
+# ------------------------------------------------------------ simplifier.load_subs: distribution and collection of the map file (C17, C13)
+NROWS = z3.Int("n_rows")
+ROW0 = z3.Function("file.row", I, Fn)             # row p of the csv file (a list of strings; opaque here)
+ROWV = z3.Function("rank.row", I, I, Fn)          # row c of rank q after the per-entry parsing (opaque)
+GROW = z3.Function("global.row", I, Fn)           # the row the result must hold at position p
+
+
+def _ls_dist_region(fnode):
+    """from the first statement (`if rank == 0:` reading and splitting the file) up to and including the scatter"""
+    for k, s in enumerate(fnode.body):
+        if isinstance(s, _ast.Assign) and isinstance(s.value, _ast.Call) and getattr(s.value.func, "attr", None) == "scatter":
+            first = 1 if (isinstance(fnode.body[0], _ast.Expr) and isinstance(fnode.body[0].value, _ast.Constant)) else 0
+            return fnode.body[first:k + 1]
+    return None
+
+
+def _lo_axioms(total):
+    q, q2 = z3.Ints("q!ax q2!ax")
+    return [LO(z3.IntVal(0)) == 0, LO(P) == total,
+            z3.ForAll([q, q2], z3.Implies(z3.And(0 <= q, q <= q2, q2 <= P), LO(q) <= LO(q2)), patterns=[z3.MultiPattern(LO(q), LO(q2))]),
+            z3.ForAll([q], LENF(q) == LO(q + 1) - LO(q), patterns=[LENF(q)])]
+
+
+def load_subs_distribute_contract():
+    """Rank 0 reads the file, cuts the rows into `size` consecutive pieces and scatters them: afterwards every rank r holds the rows
+    LO(r) .. LO(r+1)-1 of the file, in file order (LO = slice starts of np.array_split, the closed form of utils.split_idx: A-numpy,
+    validated at run time).  Verified for the root (the other ranks only take part in the scatter)."""
+    def sx(eng, q):
+        return _row(eng, LENF(q), lambda c, q=q: VFn(ROW0(LO(q) + c)), etype=T.fn)
+
+    def m_reader(eng, st, args, kwargs, node):
+        return st.alloc(HSeq(NROWS, lambda p: VFn(ROW0(p)), etype=T.fn))
+
+    def m_array_split(eng, st, args, kwargs, node):
+        a, n = args[0], args[1]
+        o = st.heap[a.addr]
+        eng.oblige(st, "np.array_split is called for (arange(number of rows), size)", z3.And(o.len == NROWS, eng.as_int(n) == P), "spmd", node)
+        g = o.get
+        return st.alloc(HSeq(P, lambda q: _row(eng, LENF(q), lambda c, q=q: g(LO(q) + c), numpy=True, etype=T.int)))
+
+    def m_scatter(eng, st, args, kwargs, node):
+        x = args[0]
+        root = kwargs.get("root", args[1] if len(args) > 1 else VInt(0))
+        if not (isinstance(root, VInt) and z3.is_int_value(root.t) and root.t.as_long() == 0):
+            raise Unsupported("scatter from a root other than 0")
+        spec = st.alloc(HSeq(P, lambda q: sx(eng, q)))
+        same(eng, st, x, spec, "guarantee for scatter(all_subs): on the root, piece q is the specified piece of rank q", R == 0, node)
+        return sx(eng, R)
+
+    def setup(eng, st, args):
+        st.env["rank"], st.env["size"] = VInt(R), VInt(P)
+        eng.models["csv.reader"] = m_reader
+        eng.models["np.array_split"] = m_array_split
+        eng.models["comm.scatter"] = m_scatter
+        eng.axioms += _lo_axioms(NROWS)
+        st.assume(R == 0)
+
+    def requires(S, a):
+        return [("size >= 1, the file has n_rows >= 0 rows", z3.And(P >= 1, NROWS >= 0))]
+
+    def piece_ok(S, v, q):
+        """all_subs[q] is the list of the rows LO(q) .. LO(q+1)-1"""
+        if isinstance(v, VMaybeNone):
+            isn, v = v.isnone, v.val
+        else:
+            isn = z3.BoolVal(False)
+        if not isinstance(v, VRef):
+            return z3.BoolVal(False)
+        o = S.st.heap[v.addr]
+        c = z3.Int(fresh_name("c!pk"))
+        e = o.get(c)
+        if not isinstance(e, VFn):
+            return z3.And(z3.Not(isn), o.len == LENF(q), o.len == 0)
+        return z3.And(z3.Not(isn), o.len == LENF(q), z3.ForAll([c], z3.Implies(z3.And(0 <= c, c < o.len), e.t == ROW0(LO(q) + c))))
+
+    def inv(S, st):
+        r = S.var("__i").t
+        al = S.seq(S.var("all_subs"))
+        q = z3.Int(fresh_name("q!ls"))
+        return [("one piece per rank", al.len == P),
+                ("the pieces of the ranks below r are their slices of the file, in file order", z3.ForAll([q], z3.Implies(z3.And(0 <= q, q < r), piece_ok(S, al.get(q), q))))]
+
+    def ensures(S, a, res):
+        v = S.var("all_subs")
+        c = z3.Int(fresh_name("c!sk"))
+        if not isinstance(v, VRef):
+            return [("after the scatter the rank holds a list of rows", z3.BoolVal(False))]
+        o = S.seq(v)
+        return [("the rank holds as many rows as its slice has", o.len == LENF(R)),
+                ("row c of the rank is row LO(rank) + c of the file", z3.Implies(z3.And(0 <= c, c < LENF(R)), o.get(c).t == ROW0(LO(R) + c)))]
+
+    def loop_select(node):
+        if isinstance(node, _ast.For) and isinstance(node.target, _ast.Name) and node.target.id == "r":
+            return LoopSpec(inv, havoc_types={"all_subs": T.list(T.opt(T.list(T.fn))), "ii": T.arr(T.int)})
+        return None
+
+    c = Contract("load_subs", {"fname": T.label, "max_param": T.int}, requires=requires, ensures=ensures, setup=setup, region=_ls_dist_region,
+                 raises=lambda S, a, e: z3.BoolVal(False))
+    c.loop_select = loop_select
+    c.region_name = "distribution of the file's rows (root)"
+    return c
+
+
+def _ls_coll_region(fnode):
+    """from `all_subs = comm.gather(all_subs, root=0)` to the return"""
+    for k, s in enumerate(fnode.body):
+        if isinstance(s, _ast.Assign) and isinstance(s.value, _ast.Call) and getattr(s.value.func, "attr", None) == "gather":
+            return fnode.body[k:]
+    return None
+
+
+def load_subs_collect_contract(bcast_res=True, root=True):
+    """Every rank r holds LENF(r) processed rows ROWV(r, c).  With bcast_res the list returned on EVERY rank has LO(size) rows and row
+    LO(q) + c is ROWV(q, c): the ranks' rows in rank order, i.e. (with the distribution contract) in file order, whatever the rank count.
+    Without bcast_res that holds on rank 0 and the other ranks return None."""
+    from pyvc import models_np2
+    from pyvc.models import SUMI, sum_unfold
+    NTOT = LO(P)
+
+    def g_rows(eng, q):
+        return _row(eng, LENF(q), lambda c, q=q: VFn(ROWV(q, c)), etype=T.fn)
+
+    def m_gather(eng, st, args, kwargs, node):
+        same(eng, st, args[0], g_rows(eng, R), "guarantee for gather(all_subs): the local rows are the specified rows of this rank", z3.BoolVal(True), node)
+        return VMaybeNone(R != 0, st.alloc(HSeq(P, lambda q: g_rows(eng, q))))
+
+    def m_bcast(eng, st, args, kwargs, node):
+        b = st.alloc(HSeq(NTOT, lambda p: VFn(GROW(p)), etype=T.fn))
+        same(eng, st, args[0], b, "guarantee for bcast(all_subs): on the root the list sent is the concatenation of the ranks' rows", R == 0, node)
+        return b
+
+    def setup(eng, st, args):
+        models_np2.install(eng)
+        st.env["rank"], st.env["size"] = VInt(R), VInt(P)
+        st.env["bcast_res"] = VBool(bcast_res)
+        eng.models["comm.gather"] = m_gather
+        eng.models["comm.bcast"] = m_bcast
+        q, c = z3.Ints("q!ax c!ax")
+        eng.axioms += _lo_axioms(NTOT)[:1] + _lo_axioms(NTOT)[2:]
+        eng.axioms.append(z3.ForAll([q, c], z3.Implies(z3.And(0 <= q, q < P, 0 <= c, c < LENF(q)), GROW(LO(q) + c) == ROWV(q, c)), patterns=[ROWV(q, c)]))
+        # the function is verified once for the root and once for the other ranks (no merging of a list with None at `if rank == 0`)
+        st.assume(R == 0 if root else R != 0)
+
+    def requires(S, a):
+        return [("0 <= rank < size", z3.And(0 <= R, R < P))]
+
+    def chain_lemma(S, st):
+        """after the flattening on the root: the prefix sums of the pieces' lengths are the slice starts (induction; base and step are obligations)"""
+        v = S.var("all_subs")
+        if not isinstance(v, VRef):
+            return
+        note = S.note(v)
+        if not note or note[0] != "chain":
+            return
+        _, lens, n, own = note
+        S.prove("the flattened list joins one piece per rank", n == P)
+        S.prove("prefix-sum lemma, base: OFF(0) = LO(0)", SUMI(lens, z3.IntVal(0)) == LO(z3.IntVal(0)))
+        m = z3.Int("m!ind")
+        step = z3.Implies(z3.And(0 <= m, m < P, SUMI(lens, m) == LO(m), sum_unfold(lens, m, SUMI)), SUMI(lens, m + 1) == LO(m + 1))
+        S.eng.oblige(st, "prefix-sum lemma, step: OFF(m) = LO(m) => OFF(m+1) = LO(m+1)", z3.ForAll([m], step), "lemma", None, "induction step")
+        st.assume(z3.ForAll([m], z3.Implies(z3.And(0 <= m, m <= P), SUMI(lens, m) == LO(m)), patterns=[SUMI(lens, m)]))
+
+    def ensures(S, a, res):
+        q, c = z3.Int(fresh_name("q!sk")), z3.Int(fresh_name("c!sk"))
+        rng = z3.And(0 <= q, q < P, 0 <= c, c < LENF(q))
+        if isinstance(res, VMaybeNone):
+            isn, v = res.isnone, res.val
+        elif isinstance(res, VRef):
+            isn, v = z3.BoolVal(False), res
+        else:
+            return [("returns the list of rows (or None off the root without bcast_res)", z3.BoolVal(False))]
+        o = S.st.heap[v.addr]
+        holder = z3.BoolVal(True) if bcast_res else (R == 0)
+        e = o.get(LO(q) + c)
+        ok = (e.t == ROWV(q, c)) if isinstance(e, VFn) else z3.BoolVal(False)
+        out = [("the list is returned on %s" % ("every rank" if bcast_res else "rank 0, None elsewhere"), isn == z3.Not(holder)),
+               ("it has LO(size) rows: one per row of the file", z3.Implies(holder, o.len == NTOT)),
+               ("row LO(q) + c is row c of rank q: the ranks' rows in rank order", z3.Implies(z3.And(holder, rng), ok))]
+        return out
+
+    c = Contract("load_subs", {"all_subs": lambda eng, st: g_rows(eng, R), "fname": T.label, "max_param": T.int}, requires=requires, ensures=ensures, setup=setup,
+                 region=_ls_coll_region, raises=lambda S, a, e: z3.BoolVal(False), hooks={"all_subs": chain_lemma})
+    c.region_name = "collection of the processed rows (bcast_res=%s, %s)" % (bcast_res, "root" if root else "other ranks")
     return c
